@@ -230,6 +230,13 @@ func (s *storage) SetRaw(ctx context.Context, keyValue ...*spacesyncproto.StoreK
 			keyValues[i].KeyPeerId = ""
 			continue
 		}
+		// same rule as the local path (Set) and as object tree changes: the signing
+		// account must have been able to write at the acl record the value cites
+		if !canWriteAtRecord(state, keyValues[i].Identity, keyValues[i].AclId) {
+			log.Warn("skipping key value without write permissions", zap.String("key", keyValues[i].KeyPeerId), zap.String("identity", keyValues[i].Identity))
+			keyValues[i].KeyPeerId = ""
+			continue
+		}
 	}
 	s.aclList.RUnlock()
 	keyValues = slice.DiscardFromSlice(keyValues, func(value innerstorage.KeyValue) bool {
@@ -251,6 +258,18 @@ func (s *storage) SetRaw(ctx context.Context, keyValue ...*spacesyncproto.StoreK
 		log.Warn("failed to index for keys", zap.Error(indexErr))
 	}
 	return nil
+}
+
+func canWriteAtRecord(state *list.AclState, identity, aclRecordId string) bool {
+	pubKey, err := crypto.DecodeAccountAddress(identity)
+	if err != nil {
+		return false
+	}
+	perms, err := state.PermissionsAtRecord(aclRecordId, pubKey)
+	if err != nil {
+		return false
+	}
+	return perms.CanWrite()
 }
 
 func (s *storage) GetAll(ctx context.Context, key string, get func(decryptor Decryptor, values []innerstorage.KeyValue) error) (err error) {
